@@ -35,7 +35,7 @@ COMPONENTS = ["laostar", "lrtdp", "astar", "bfs", "td", "rmax", "bpi", "ga", "se
 
 KINDS = ["KPrivate", "KParamDefaultGlobal", "KGlobalIfSeedNone", "KAuditedOrderFree",
          "KGlobal", "KGlobalIfSeedFalsy", "KUnseeded", "KHashOrder", "KHash", "KHashDerivedSeed",
-         "KPersistentAcrossCalls"]
+         "KPersistentAcrossCalls", "KShufflesCallerObject"]
 
 # file -> (default components, {scope-prefix: components})
 # A scope is "Class.method" / "function" (nested functions and lambdas belong to their enclosing scope).
@@ -505,6 +505,8 @@ class FileScan:
         # draws on generator-bound receivers
         if meth in DRAW_METHODS and self.is_genexpr(recv) and not self.is_global_module_value(recv):
             self.claimed.add(n)
+            if meth == "shuffle" and n.args and not self.is_fresh_list(n.args[0], n):
+                return self.emit(n, "KShufflesCallerObject", src(n) + "   [in-place shuffle of `%s`, which is not provably a fresh copy]" % src(n.args[0]))
             return self.emit(n, "KPrivate")
         # msdm methods whose rng parameter defaults to the global generator
         if meth in RNG_DEFAULT_METHODS or meth in self.rng_default_callees:
@@ -516,6 +518,52 @@ class FileScan:
             raise Unclassified("%s:%d: `%s`: method `%s` on a receiver that is neither a known generator nor a distribution class"
                                % (self.rel, n.lineno, src(n), meth))
         return None
+
+    def is_fresh_expr(self, e):
+        """expression that certainly builds a NEW list: list(..), sorted(..), [..], a comprehension, x.copy(), copy.copy(x), a + b"""
+        if isinstance(e, (ast.List, ast.ListComp)):
+            return True
+        if isinstance(e, ast.Call):
+            d = dotted(e.func) or ""
+            if d in ("list", "sorted", "copy.copy", "copy.deepcopy"):
+                return True
+            if isinstance(e.func, ast.Attribute) and e.func.attr == "copy" and not e.args:
+                return True
+        if isinstance(e, ast.BinOp) and isinstance(e.op, ast.Add):
+            return self.is_fresh_expr(e.left) or self.is_fresh_expr(e.right)
+        return False
+
+    def is_fresh_list(self, arg, at):
+        """the shuffled object is a local name whose governing assignment(s) build a new list"""
+        if self.is_fresh_expr(arg):
+            return True
+        if not isinstance(arg, ast.Name):
+            return False
+        f = self.func_of(at)
+        if f is None or isinstance(f, ast.Lambda):
+            return False
+        # nearest earlier assignment in the same statement block decides (branch-local `x = list(..); rng.shuffle(x)`)
+        st = self.stmt_of(at)
+        par = self.parents.get(st)
+        for field in ("body", "orelse", "finalbody"):
+            block = getattr(par, field, None)
+            if isinstance(block, list) and st in block:
+                for prev in reversed(block[:block.index(st)]):
+                    if isinstance(prev, ast.Assign) and any(isinstance(t, ast.Name) and t.id == arg.id for t in prev.targets):
+                        return self.is_fresh_expr(prev.value)
+                    if any(isinstance(x, ast.Name) and x.id == arg.id and isinstance(x.ctx, ast.Store) for x in ast.walk(prev)):
+                        return False
+        if arg.id in {a.arg for a in f.args.posonlyargs + f.args.args + f.args.kwonlyargs}:
+            return False
+        values = []
+        for x in ast.walk(f):
+            if isinstance(x, ast.Assign) and any(isinstance(t, ast.Name) and t.id == arg.id for t in x.targets):
+                values.append(x.value)
+            elif isinstance(x, (ast.AugAssign, ast.AnnAssign)) and isinstance(x.target, ast.Name) and x.target.id == arg.id:
+                values.append(x.value)
+            elif isinstance(x, (ast.For, ast.comprehension)) and any(isinstance(t, ast.Name) and t.id == arg.id for t in ast.walk(x.target)):
+                return False
+        return bool(values) and all(v is not None and self.is_fresh_expr(v) for v in values)
 
     def check_rng_keyword(self, n, param):
         if True:
